@@ -28,7 +28,8 @@ FIXED = [
  "fixed: property=C15 53ec1f0 fhirconv rendered dateTime/instant elements with time zone Z as +00:00, unlike the google/fhir JSON form",
  "fixed: property=C15 c5f9e1e ToProtoDecimal went through float64 and lost digits",
  "fixed: property=C15 f83d43b '\\u00e9' evaluated to 'u00e9' (no \\uXXXX decoding)",
- "fixed: property=C15 6401cb3 @T10:30:00.25 kept a hidden 250 ms under second precision: string form 10:30:00 did not re-parse to an equal value"
+ "fixed: property=C15 6401cb3 @T10:30:00.25 kept a hidden 250 ms under second precision: string form 10:30:00 did not re-parse to an equal value",
+ "fixed: property=C01 780360d %a = %b panicked in Collection.TryEqual when an item of an environment collection is itself a collection (nested collections are accepted by EnvVariable)"
 ]
 k('C13', 'to-errors|Integer|str*|table=1', "toInteger() on a string that is not an integer returns the strconv error instead of empty (the error is asserted by the repository's TestToInteger, so it is recorded, not repaired); receiver class str*", {'src': "'abc'.toInteger()", 'got': 'ERROR: strconv.ParseInt: parsing "abc": invalid syntax', 'want': '{}'})
 k('C13', 'to-errors|Integer|fhir.str*|table=1', "toInteger() on a string that is not an integer returns the strconv error instead of empty (the error is asserted by the repository's TestToInteger, so it is recorded, not repaired); receiver class fhir.str*", {'src': "'abc'.toInteger()", 'got': 'ERROR: strconv.ParseInt: parsing "abc": invalid syntax', 'want': '{}'})
